@@ -51,7 +51,7 @@ def static_checks(ctx):
 def obligations(ctx):
     sl = shapes.enumerate_shapes(ctx.tier, ctx.seed)
     if ctx.tier != "quick":
-        vlib.JOBS = min(vlib.JOBS, 6)     # memory: see props/C01.py
+        vlib.JOBS = min(vlib.JOBS, 4)     # memory: see props/C01.py
     if ctx.tier == "quick":
         sl = [s for i, s in enumerate(sl) if i % 2 == 0 or s.nulls or s.symstr]
     obls = C01.shape_obligations(ctx, "C02", "PROP_C02", sl)
